@@ -157,4 +157,52 @@ theorem curveInputsOfModel_fuel (hpi : 0 < T.pi)
           simp only at h
           cases h
 
+variable [Rosu.PerfCalc.PPOps K]
+
+/-- **Byte level.** When the composed osu! pipeline answers `fuel` (exact arithmetic, fuel `≥ 4095`,
+decoded control points bounded), the CURVE is not the cause: either some slider's event loop ran out of
+fuel, or the downstream pipeline did on the model's own curve inputs. -/
+theorem osuFromBytesCurve_fuel (hpi : 0 < T.pi)
+    (hatan : ∀ y x, -T.pi ≤ T.atan2 y x ∧ T.atan2 y x ≤ T.pi)
+    (O : BOps K K) (hO : ∀ n, O.ofI32 n = (n : K)) (A : Rosu.ConvOsu.Ar K K)
+    (E : Rosu.SliderEvents.Arith K) (F : FoldOps K) (fuel : Nat) (hfuel : 4095 ≤ fuel)
+    (bytes : List UInt8) (i : OsuInputs K) (take : Nat)
+    (hbound : ∀ d objs snd, fromBytes bytes = some d → d.objects = some (objs, snd) →
+      SlidersBounded (objs.map (·.2)))
+    (h : osuDifficultyFromBytesCurve O A E (Rosu.Curve.fieldArith T) F fuel bytes i take = .fuel) :
+    ∃ d objs snd, fromBytes bytes = some d ∧ d.objects = some (objs, snd) ∧
+      ((∃ o ∈ objs.map (·.2), ∃ r len ns cps, o.kind = .slider r len ns cps ∧
+          EventsOutOfFuel O E fuel d o.time r) ∨
+       ∃ curves, curveInputsOfModel O A E (Rosu.Curve.fieldArith T) F fuel d (objs.map (·.2))
+            Bufs.empty = .ok curves ∧
+          osuDifficultyFromBytes O A E fuel bytes i take curves = .fuel) := by
+  unfold osuDifficultyFromBytesCurve at h
+  cases hb : fromBytes bytes with
+  | none => rw [hb] at h; cases h
+  | some d =>
+    rw [hb] at h
+    simp only at h
+    split at h
+    · cases h
+    · cases ho : d.objects with
+      | none => rw [ho] at h; cases h
+      | some v =>
+        obtain ⟨objs, snd⟩ := v
+        rw [ho] at h
+        simp only at h
+        refine ⟨d, objs, snd, rfl, ho, ?_⟩
+        cases hc : curveInputsOfModel O A E (Rosu.Curve.fieldArith T) F fuel d (objs.map (·.2))
+            Bufs.empty with
+        | error e =>
+          rw [hc] at h
+          cases e with
+          | fuel =>
+            exact Or.inl (curveInputsOfModel_fuel T hpi hatan O hO A E F fuel hfuel d _
+              (hbound d objs snd hb ho) Bufs.empty bufsWF_empty hc)
+          | panic => simp at h
+          | clampPanic => simp at h
+        | ok curves =>
+          rw [hc] at h
+          exact Or.inr ⟨curves, rfl, h⟩
+
 end Rosu.PipelineCurve
